@@ -36,7 +36,7 @@ def model_of(chan, dn, kw):
     # input files give "r_x": 0): both spellings are legal
     def lit(v):
         f = v / pn
-        return int(f) if f in (0.0, 1.0) and (x + 2 * y + 3 * z) % 2 == 0 else f
+        return int(f) if f in (0.0, 1.0) and (dn is not None or (x + 2 * y + 3 * z) % 2 == 0) else f
     return PauliErrorModel(lit(x), lit(y), lit(z), deformation_name=dn,
                            deformation_kwargs=dict(kw)), pn / 10
 
@@ -344,6 +344,8 @@ def run(tier):
     jobs = []
     for k, (name, size, dn, kw) in enumerate(small_subjects(tier)):
         chans = [CHANS[(k + j) % len(CHANS)] for j in range(5)] if tier != 'quick' else [CHANS[k % len(CHANS)], CHANS[(k + 3) % len(CHANS)], CHANS[3]]
+        if dn is not None:
+            chans = list(chans) + [(0, 5, 3, 2), (6, 0, 3, 1)]     # a zero that the deformation moves
         for chan in dict.fromkeys(chans):
             jobs.append((name, size, dn, kw, chan))
     recs = common.pmap(drive_all_safe, jobs, procs=15)
